@@ -18,8 +18,11 @@ package subject
 
 import (
 	"crypto/sha256"
+	"fmt"
 
 	"github.com/goccy/go-json"
+
+	"github.com/dadrus/heimdall/internal/x/stringx"
 )
 
 type Subject struct {
@@ -29,7 +32,15 @@ type Subject struct {
 
 func (s *Subject) Hash() []byte {
 	hash := sha256.New()
-	rawSub, _ := json.Marshal(s)
+
+	rawSub, err := json.Marshal(s)
+	if err != nil {
+		// there are values, which cannot be represented in JSON (like an infinite number resulting
+		// from a number too large for a float). The subject must nevertheless be part of the
+		// hash. Otherwise all such subjects would be the same for e.g. cache keys.
+		// Maps are printed with sorted keys, so the result is stable.
+		rawSub = stringx.ToBytes(fmt.Sprintf("%q %v", s.ID, s.Attributes))
+	}
 
 	hash.Write(rawSub)
 
